@@ -91,7 +91,60 @@ def generate(rng, tier, focus):
     return _generated(rng, tier, focus)
 
 
-def _generated(rng, tier, focus):
+def _degenerate(rng, tier, focus):
+    """C06 only: a mobile (end) molecule with a hub atom whose bonded neighbours are EXACTLY collinear (dyadic
+    coordinates, e.g. placeholder beads drawn on a line).  The random single-atom displacement of the hub is then 0/0:
+    the proposal is non-finite and must never become the held configuration ("all coordinates remain finite")."""
+    n_end = rng.randint(4, 9)
+    n_start = rng.randint(n_end, 12)
+    start = _mol(rng, "SPC", n_start, tree=False, p_h=rng.choice([0.0, 0.3]), origin=gen.rvec(rng, 1.0))
+    hub = rng.randrange(n_end)
+    others = [i for i in range(n_end) if i != hub]
+    rng.shuffle(others)
+    k = rng.randint(3, len(others))
+    neigh, rest = others[:k], others[k:]
+    edges = [[hub, j] if rng.random() < 0.5 else [j, hub] for j in neigh]
+    rng.shuffle(edges)
+    placed = list(neigh)
+    for j in rest:
+        edges.append([rng.choice(placed), j])
+        placed.append(j)
+    pos = [None] * n_end
+    h = np.array([rng.randrange(-64, 64) / 32.0 for _ in range(3)])
+    pos[hub] = h
+    while True:
+        u = np.array([rng.randrange(-3, 4) for _ in range(3)]) / 32.0
+        if np.any(u):
+            break
+    q = h + np.array([rng.randrange(-6, 7) for _ in range(3)]) / 64.0
+    ts = rng.sample(range(-5, 6), k)
+    for j, t in zip(neigh, ts):
+        pos[j] = q + t * u
+    if any(np.linalg.norm(pos[j] - h) < 1e-3 for j in neigh):
+        return _generated(rng, tier, focus, allow_degenerate=False)
+    for e in edges[k:]:
+        par, j = e
+        while True:
+            cand = pos[par] + gen.unit_vec(rng) * rng.uniform(0.1, 0.2)
+            if all(p_ is None or np.linalg.norm(cand - p_) > 0.03 for p_ in pos):
+                break
+        pos[j] = cand
+    names = [gen.atom_name(rng, i, False) for i in range(n_end)]
+    end = {"name": "SPC", "atom_names": names, "resnames": ["SPC"] * n_end, "resids": [1] * n_end,
+           "edges": edges, "positions": [[float(x) for x in p_] for p_ in pos]}
+    deform = rng.choice([[2], [2], [0, 2], [1, 2], [0, 1, 2], None])
+    script = {"sites": {"atomindex": {"p": 0.3, "burst": rng.choice([3, 10]), "mode": 3}}, "seed": rng.randrange(2 ** 31)}
+    if rng.random() < 0.3:
+        script = gen_script(rng)
+    return {"focus": focus, "mode": "align", "reassign": None, "start": start, "end": end,
+            "restraints": [] if rng.random() < 0.6 else [[rng.randrange(n_start), rng.randrange(n_end)]],
+            "deform": deform, "auto_guess": None, "ignore_h": rng.random() < 0.5, "steps_factor": rng.choice([1, 2, 4]),
+            "sigma_scale": 0.5, "np_seed": rng.randrange(2 ** 32), "script": script, "degenerate": True}
+
+
+def _generated(rng, tier, focus, allow_degenerate=True):
+    if allow_degenerate and focus == "C06" and rng.random() < 0.06:
+        return _degenerate(rng, tier, focus)
     big = tier == "thorough" and rng.random() < 0.25
     hi = 40 if big else 12
     c = rng.random()
@@ -320,11 +373,14 @@ class Script:
 # --------------------------------------------------------------------------
 
 class Watch:
-    def __init__(self, ctx, tree_mobile):
+    def __init__(self, ctx, tree_mobile, degenerate=False):
         self.ctx = ctx
         self.tree_mobile = tree_mobile
         self.phase = "idle"
-        self.unobservable = False
+        # degenerate geometry (C06 only): non-finite proposals are legal there and the statements of C07-C09 do not cover
+        # them (generic coordinates, energies > 0): their monitors stand down, the end-state oracles of C06 stay
+        self.degenerate = degenerate
+        self.unobservable = bool(degenerate)
         self.n_steps = None
         self.sim_type = None
         self.held = None
@@ -515,6 +571,10 @@ def make_monitors(ctx, watch, real):
                 ctx.violate("C08", "chi2-not-a-number", f"the measure returned {val!r}")
                 watch.on_chi2(arr_before, val)
                 return val
+            if watch.degenerate and not np.all(np.isfinite(arr_before)):
+                ctx.probe("non_finite_proposal_evaluated")
+                watch.on_chi2(arr_before, val)
+                return val
             want, k, ambiguous = fast_chi2(self._fixed, arr_before, self._restr)
             if ambiguous:
                 ctx.probe("chi2_tie_skipped")
@@ -539,6 +599,10 @@ def make_monitors(ctx, watch, real):
     def mon_displ(atoms_pos, bonds_info, atom_index, *a, **kw):
         before = np.array(atoms_pos, dtype=float, copy=True)
         out = real_displ(atoms_pos, bonds_info, atom_index, *a, **kw)
+        if watch.degenerate and not np.all(np.isfinite(np.asarray(out, dtype=float))):
+            ctx.probe("non_finite_displacement")
+            watch.last_displ = np.array(out, dtype=float, copy=True)
+            return out
         check_displacement(ctx, before, bonds_info, atom_index, out)
         if not np.array_equal(before, np.asarray(atoms_pos)):
             ctx.violate("C07", "displ-modifies-input", "find_atom_random_displ modified the coordinate array")
@@ -552,7 +616,10 @@ def make_monitors(ctx, watch, real):
         out = real_move(atoms_pos, bonds_info, atom_index=atom_index, displ=displ, sigma_scale=sigma_scale)
         idx = atom_index if atom_index is not None else watch.last_randint
         d = displ if displ is not None else watch.last_displ
-        check_move(ctx, before, np.asarray(atoms_pos), bonds_info, idx, d, out, tree=watch.tree_mobile)
+        if watch.degenerate and not np.all(np.isfinite(np.asarray(out, dtype=float))):
+            ctx.probe("non_finite_move")
+        else:
+            check_move(ctx, before, np.asarray(atoms_pos), bonds_info, idx, d, out, tree=watch.tree_mobile)
         if watch.cur is not None:
             watch.cur["move"] = (before, np.array(out, dtype=float, copy=True))
         return out
@@ -762,7 +829,7 @@ def execute(trace, ctx):
         for key, m in later.items():
             setattr(ali, key, m)
         ini_s, ini_e = mol_snapshot(ali.start), mol_snapshot(ali.end)
-        watch = Watch(ctx, tree_mobile)
+        watch = Watch(ctx, tree_mobile, degenerate=bool(trace.get("degenerate")))
         script = Script(trace["script"], ctx if monitored else _NullCtx(), n_mob, hubs)
         seam = RandomSeam(ctx, trace["np_seed"], listener=watch.on_draw if monitored else None, log=monitored)
         seam.overrider = script
@@ -806,6 +873,8 @@ def execute(trace, ctx):
     ctx.op(trace["mode"], outcome)
     if trace.get("shipped"):
         ctx.probe("shipped_pair")
+    if trace.get("degenerate"):
+        ctx.probe("degenerate_mobile_geometry")
     if outcome == "extra-draw":
         return
     if outcome.startswith("raised"):
